@@ -324,6 +324,38 @@ impl Returned {
     }
 }
 
+/// Harness bookkeeping that one thread writes and another reads to decide what "had already
+/// happened": both sides touch a shared loom-visible marker, otherwise the read would be glued
+/// to the reader's previous visible step and DPOR would never order it after the writes.
+pub struct Visible<T> {
+    shadow: LArc<Shadow>,
+    data: Arc<Mutex<T>>,
+}
+
+impl<T> Clone for Visible<T> {
+    fn clone(&self) -> Self {
+        Visible { shadow: self.shadow.clone(), data: self.data.clone() }
+    }
+}
+
+impl<T: Clone + Default> Visible<T> {
+    pub fn new() -> Self {
+        Visible { shadow: LArc::new(Shadow::new()), data: Arc::new(Mutex::new(T::default())) }
+    }
+    pub fn update(&self, f: impl FnOnce(&mut T)) {
+        self.shadow.touch();
+        f(&mut self.data.lock().unwrap());
+    }
+    pub fn read(&self) -> T {
+        self.shadow.touch();
+        self.data.lock().unwrap().clone()
+    }
+    /// read without a scheduling point (for the oracle at the end of an execution)
+    pub fn peek(&self) -> T {
+        self.data.lock().unwrap().clone()
+    }
+}
+
 // ------------------------------------------------------------------------------------------
 // a metrics recorder that counts counter increments by name
 
